@@ -24,7 +24,7 @@ from dimod import (BinaryQuadraticModel as BQM, QuadraticModel as QM, Constraine
 from harness.common import lab, rat, run_driver
 from harness.props.energy_common import (LABELS, Recipe, q8, F, fl, poly_value, rats, labs, rows_tok, introws_tok,
                                          adj_tok, qmb_tokens, domain, perm_of, dict_lit, encodings, run_child,
-                                         exc_class, gen_bqm, gen_qm)
+                                         exc_class, gen_bqm, gen_qm, edit_history)
 
 
 class Batch:
@@ -273,6 +273,26 @@ def check_energies(ctx, r, B, R, target, site, labels_used, all_labels, dom, mir
                 ctx.fail('property', site, ic, f'energies {list(map(str, got))} but the polynomial of the reported coefficients gives '
                          f'{list(map(str, expect))}', repro=repro, detail=dict(encoding=enc_expr, rows=repr(rows)))
             continue
+        # the same call with an explicit result dtype (`energies(samples_like, dtype=…)`): the same values
+        if rows and r.random() < .35:
+            exact32 = all(Fraction(float(np.float32(float(e)))) == e and abs(e) < 2 ** 20 for e in expect)
+            for dname in (['np.float64'] + (['np.float32'] if exact32 and allow_float else [])):
+                try:
+                    got2 = [F(e) for e in t.energies(R.ev(enc_expr), dtype=R.ev(dname))]
+                except TypeError as e:
+                    if 'dtype' in str(e) or 'keyword' in str(e):
+                        ctx.tick(f'{site}: energies has no dtype argument')
+                        break
+                    got2 = f'{type(e).__name__}: {e}'
+                except Exception as e:  # noqa
+                    got2 = f'{type(e).__name__}: {e}'
+                ctx.tick(f'{site}: energies(dtype={dname})')
+                ctx.case((site, tuple(R.lines[4:]), target, enc_expr, dname), nontrivial=bool(labels_used))
+                if got2 != expect:
+                    ctx.fail('property', site, ic + f'; dtype={dname}', f'energies(…, dtype={dname}) gives {got2 if isinstance(got2, str) else list(map(str, got2))} '
+                             f'but the polynomial of the reported coefficients gives {list(map(str, expect))}',
+                             repro=repro.replace('t.energies(enc)', f't.energies(enc, dtype={dname})'), detail=dict(encoding=enc_expr))
+                    break
         # (i) the model of the loop on what as_samples delivers
         try:
             d_rows, d_labels = real_as_samples(R.ev(enc_expr))
@@ -305,6 +325,14 @@ def case_bqm(ctx, r, B):
     R = Recipe()
     dtype = r.choice(['np.float64', 'np.float32', 'object'])
     labels, vt = gen_bqm(r, R, dtype=dtype)
+    if labels and r.random() < .3:
+        # energies of a model an edit history left behind (relabelled, contracted, copied, converted …), not only of a fresh one
+        if edit_history(ctx, r, R, dtype, nops=r.randint(1, 3), tag='history op before energies') is None:
+            return
+        labels, vt = list(R['m'].variables), R['m'].vartype.name
+        if any(abs(F(b)) > 64 for _, b in R['m'].iter_linear()) or any(abs(F(b)) > 64 for _, _, b in R['m'].iter_quadratic()):
+            return
+        ctx.tick('energies after an edit history')
     m = R['m']
     is_py = dtype == 'object'
     for target in ['m', 'm.spin', 'm.binary']:
